@@ -22,7 +22,7 @@ RULE = ("one run = bring-up + one generated sign request (v5 legacy/segwit/hash 
         "request reached the device; distinct = tuple (mode, kind, key path, #inputs, push "
         "encodings present, witness-script varint form, termination class per part, "
         "multi-chunk parts, DER shape)")
-TIERS = {"quick": {"runs": 24000, "wall": 100}, "thorough": {"runs": 1500000, "wall": 1500}}
+TIERS = {"quick": {"runs": 150000, "wall": 240}, "thorough": {"runs": 1500000, "wall": 3000}}
 COMPONENTS = {
     "real": ["comm.server._RequestHandler", "comm.protocol", "comm.protocol_v1",
              "ledger.protocol", "ledger.protocol_v1", "ledger.hsm2dongle", "ledger.signature",
